@@ -19,10 +19,21 @@ PID = "C20"
 F = facade.FACADE
 
 
-def _inner(seed, kind="us"):
+NAN = float("nan")
+
+
+def _inner(seed, kind="us", missing=NAN):
     if kind == "coreset":
-        return pl.pool().CoreSet(random_state=seed)       # no classifier argument: exercises match_signature / call_func
-    return pl.pool().UncertaintySampling(method="least_confident", random_state=seed)
+        return pl.pool().CoreSet(random_state=seed, missing_label=missing)   # no classifier argument: exercises match_signature / call_func
+    return pl.pool().UncertaintySampling(method="least_confident", random_state=seed, missing_label=missing)
+
+
+def _encode(env, s, missing):
+    """the scenario's labels under the integer encoding with the sentinel `missing` (-1)"""
+    if missing != missing:
+        return s.y
+    vals = np.array([(i % s.K) if s.lab[i] else missing for i in range(s.n)], dtype=int)
+    return arrays.SymNd(vals) if env.sym else vals
 
 
 def _kw(kind, clf):
@@ -102,12 +113,22 @@ def replay_parallel(inputs, label, n, mode, n_jobs, cpus, inner="us"):
 
 
 # ---------------------------------------------------------------- sub-sampling wrapper
-def _subsample(env, s, b, max_cand, exclude, table=None, inner_kind="us"):
+def _subsample(env, s, b, max_cand, exclude, table=None, inner_kind="us", missing=NAN):
     P = pl.pool()
     clf = _clf(env.sym, table)
+    clf.missing_label = missing
     kw = _kw(inner_kind, clf)
-    w = P.SubSamplingWrapper(query_strategy=_inner(s.seed, inner_kind), max_candidates=max_cand, exclude_non_subsample=exclude,
-                             random_state=s.seed)
+    w = P.SubSamplingWrapper(query_strategy=_inner(s.seed, inner_kind, missing), max_candidates=max_cand, exclude_non_subsample=exclude,
+                             random_state=s.seed, missing_label=missing)
+    _y_float = s.y
+    s.y = _encode(env, s, missing)
+    try:
+        return _subsample_checks(env, s, b, max_cand, exclude, inner_kind, missing, w, kw)
+    finally:
+        s.y = _y_float
+
+
+def _subsample_checks(env, s, b, max_cand, exclude, inner_kind, missing, w, kw):
     ncand = len(s.cand_set)
     m = min(max_cand, ncand) if isinstance(max_cand, int) else min(math.ceil(ncand * max_cand), ncand)
     try:
@@ -146,11 +167,11 @@ def _subsample(env, s, b, max_cand, exclude, table=None, inner_kind="us"):
     env.prove(all(i in sub for i in idl), "subsampling_selects_from_subset", info=dict(got=idl, subset=sub))
     # utilities on the subset equal the wrapped strategy's utilities for exactly that subset
     if s.mode == "rows":
-        ref = _inner(s.seed, inner_kind).query(s.X, s.y, candidates=s.cand[sub] if len(sub) else s.cand,
+        ref = _inner(s.seed, inner_kind, missing).query(s.X, s.y, candidates=s.cand[sub] if len(sub) else s.cand,
                                                batch_size=1, return_utilities=True, **kw)[1]
         refv = {p: (arrays.raw(arrays.asnd(ref)) if env.sym else np.asarray(ref))[0, j] for j, p in enumerate(sub)}
     else:
-        ref = _inner(s.seed, inner_kind).query(s.X, s.y, candidates=sub, batch_size=1, return_utilities=True, **kw)[1]
+        ref = _inner(s.seed, inner_kind, missing).query(s.X, s.y, candidates=sub, batch_size=1, return_utilities=True, **kw)[1]
         refv = {p: (arrays.raw(arrays.asnd(ref)) if env.sym else np.asarray(ref))[0, p] for p in sub}
     for p in sub:
         env.prove(_eq_nan(env, ru[0, p], refv[p]), "subsampling_reports_inner_utilities", info=dict(pos=p))
@@ -164,7 +185,7 @@ def _subsample(env, s, b, max_cand, exclude, table=None, inner_kind="us"):
                 env.prove(pl.is_nan_z(v) if env.sym else bool(np.isnan(v)), "subsampling_nan_at_earlier_picks", info=dict(step=t, pos=p))
 
 
-def sym_subsample(c, n, mode, b, max_cand, exclude, inner="us"):
+def sym_subsample(c, n, mode, b, max_cand, exclude, inner="us", missing=NAN):
     # index candidates are drawn from the unlabeled samples (a labeled candidate is dropped from the reduced
     # training set when exclude_non_subsample=True; the property does not fix that case)
     s = pl.gen_scenario(c, n, mode, b, independent=False)
@@ -172,16 +193,16 @@ def sym_subsample(c, n, mode, b, max_cand, exclude, inner="us"):
         # the reduced training set (labeled samples only) would be empty: the wrapped strategy itself rejects an
         # empty X, so there is nothing the wrapper could be transparent to
         raise core.PathAbort("empty reduced training set")
-    _subsample(pl.Env(c), s, b, max_cand, exclude, inner_kind=inner)
+    _subsample(pl.Env(c), s, b, max_cand, exclude, inner_kind=inner, missing=missing)
     c.witness(True, "ran")
 
 
-def replay_subsample(inputs, label, n, mode, b, max_cand, exclude, inner="us"):
+def replay_subsample(inputs, label, n, mode, b, max_cand, exclude, inner="us", missing=NAN):
     s = pl.real_scenario(inputs, n, mode)
     for seed in [s.seed] + ([] if inputs.get("__scripted__") else list(range(20))):
         s.seed = seed
         env = pl.Env()
-        _subsample(env, s, b, max_cand, exclude, table=inputs.get("__clf__"), inner_kind=inner)
+        _subsample(env, s, b, max_cand, exclude, table=inputs.get("__clf__"), inner_kind=inner, missing=missing)
         if label in env.violated:
             return True, (f"SubSamplingWrapper({inner}, max_candidates={max_cand}, exclude_non_subsample={exclude}, "
                           f"random_state={seed}).query(X={s.X.ravel().tolist()}, labeled={s.lab}, candidates="
@@ -196,10 +217,10 @@ def validate_parallel(inputs, n, mode, n_jobs, cpus, inner="us"):
     return sorted(env.violated)
 
 
-def validate_subsample(inputs, n, mode, b, max_cand, exclude, inner="us"):
+def validate_subsample(inputs, n, mode, b, max_cand, exclude, inner="us", missing=NAN):
     s = pl.real_scenario(inputs, n, mode)
     env = pl.Env()
-    _subsample(env, s, b, max_cand, exclude, table=inputs.get("__clf__"), inner_kind=inner)
+    _subsample(env, s, b, max_cand, exclude, table=inputs.get("__clf__"), inner_kind=inner, missing=missing)
     return sorted(env.violated)
 
 
@@ -226,6 +247,10 @@ def _cfg_sub(tier):
     for mode in ("none", "idx", "rows"):
         for ex in (False, True):
             out.append(dict(n=3, mode=mode, b=2, max_cand=2, exclude=ex, inner="coreset"))
+    # integer labels with the sentinel -1 (wrapper, wrapped strategy and classifier agree on it)
+    for mode in ("none", "idx"):
+        for ex in (False, True):
+            out.append(dict(n=3, mode=mode, b=1, max_cand=1, exclude=ex, missing=-1))
     return out
 
 
